@@ -58,6 +58,9 @@ func checkC02(r *Report) {
 	// SIGNED-PARSE: identifier text is not read by a sign-accepting parser
 	nSP := signedParseRule(r, loadResolve("", true), "C02/SIGNED-PARSE", "semver")
 	r.floor("C02/SIGNED-PARSE", "strconv.ParseInt/Atoi calls in package semver", nSP, 2)
+	// PEP440-TEXT-FOLDED
+	nTF := textFoldedRule(r, loadResolve("", true), "C02/PEP440-TEXT-FOLDED", "pep440")
+	r.floor("C02/PEP440-TEXT-FOLDED", "stores to string fields of the parsed PEP 440 extension", nTF, 2)
 
 	// (a) Maven qualifier order
 	if init := pkgVarInit(pk, "mavenVersionQualifierOrder"); init == nil {
